@@ -522,19 +522,55 @@ const KnownUnpinnedRead = "C06-unpinned-read"
 // KnownBeginVsCollector is the id of the known finding "Begin draws its number before it registers".
 const KnownBeginVsCollector = "C08-begin-vs-collector"
 
-// beginVsCollector returns the indices of the reads of snapshot transactions whose Begin overlapped
-// a removal of content by another goroutine (a collector or cleaner run): such a transaction may
-// have lost the versions its snapshot needs.
+// beginVsCollector returns the indices of the reads of snapshot transactions whose Begin overlapped a
+// collector run that removed content: the collector takes its horizon from the REGISTERED
+// transactions when it starts, Begin registers only after it drew its number, so such a run may
+// remove versions the new snapshot needs (whenever the removal itself happens afterwards).
+// A collector run = the hook event "cleaner.deleteold" of a goroutine up to its last removal event.
 func beginVsCollector(run *Run, ops []HOp) []int {
+	type crun struct{ g, start, end int }
+	var runs []crun
+	for i, e := range run.Events {
+		if e.Kind != "cleaner.deleteold" {
+			continue
+		}
+		r := crun{g: e.G, start: e.T, end: -1}
+		for _, f := range run.Events[i+1:] {
+			if f.G != e.G {
+				continue
+			}
+			if f.Kind == "cleaner.deleteold" {
+				break
+			}
+			if f.Kind == "os.remove" || f.Kind == "badger.delete" {
+				r.end = f.T
+			}
+		}
+		if r.end >= 0 {
+			runs = append(runs, r)
+		}
+	}
 	var out []int
 	for _, b := range ops {
 		if b.K != "begin" || b.Lvl < 2 {
 			continue
 		}
 		hit := false
-		for _, e := range run.Events {
-			if e.G != b.G && e.T >= b.Call && e.T <= b.Ret && (e.Kind == "os.remove" || e.Kind == "badger.delete") {
-				hit = true
+		for _, r := range runs {
+			if r.g != b.G && r.start <= b.Ret && r.end >= b.Call {
+				hit = true // the run took its horizon while this transaction was not registered yet
+			}
+		}
+		// second manifestation: two Begins overlap, the one with the smaller number registers later;
+		// the collector takes the first REGISTERED transaction for the oldest one
+		for _, b2 := range ops {
+			if b2.K != "begin" || b2.Slot == b.Slot || b2.Call > b.Ret || b2.Ret < b.Call {
+				continue
+			}
+			for _, r := range runs {
+				if r.end >= b.Call {
+					hit = true
+				}
 			}
 		}
 		if !hit {
